@@ -586,6 +586,9 @@ pub struct Import {
     /// `supports(selector(..))` (instead of the declaration form)
     #[serde(default)]
     pub supports_sel: Option<Vec<Complex>>,
+    /// spelling of the function names `layer(` / `supports(`: 0 lower case, 1 upper case, 2 capitalised
+    #[serde(default)]
+    pub fn_case: u8,
 }
 
 #[derive(Clone, Debug, PartialEq, Serialize, Deserialize)]
@@ -864,22 +867,30 @@ impl Node {
                     }
                     ImportForm::Url(s) => e.decoy(TokKind::Url(s.clone())),
                 }
+                let fn_case = im.fn_case;
+                let cased = |n: &str| -> String {
+                    match fn_case % 3 {
+                        1 => n.to_ascii_uppercase(),
+                        2 => n[..1].to_ascii_uppercase() + &n[1..],
+                        _ => n.to_string(),
+                    }
+                };
                 if let Some(l) = &im.layer {
                     e.slot(Slot::Sep);
                     match l {
                         None => e.decoy(TokKind::Ident("layer".into())),
                         Some(n) => {
-                            e.open(Bracket::Func("layer".into()));
+                            e.open(Bracket::Func(cased("layer")));
                             e.slot(Slot::Opt);
                             e.decoy(TokKind::Ident(n.clone()));
                             e.slot(Slot::Opt);
-                            e.close(Bracket::Func("layer".into()));
+                            e.close(Bracket::Func(cased("layer")));
                         }
                     }
                 }
                 if let Some((p, v)) = &im.supports {
                     e.slot(Slot::Sep);
-                    e.open(Bracket::Func("supports".into()));
+                    e.open(Bracket::Func(cased("supports")));
                     e.slot(Slot::Opt);
                     e.decoy(TokKind::Ident(p.clone()));
                     e.slot(Slot::Opt);
@@ -887,17 +898,17 @@ impl Node {
                     e.slot(Slot::Opt);
                     emit_values(v, e);
                     e.slot(Slot::Opt);
-                    e.close(Bracket::Func("supports".into()));
+                    e.close(Bracket::Func(cased("supports")));
                 }
                 if let Some(sel) = &im.supports_sel {
                     e.slot(Slot::Sep);
-                    e.open(Bracket::Func("supports".into()));
+                    e.open(Bracket::Func(cased("supports")));
                     e.slot(Slot::Opt);
                     e.open(Bracket::Func("selector".into()));
                     emit_selector_list(sel, e);
                     e.close(Bracket::Func("selector".into()));
                     e.slot(Slot::Opt);
-                    e.close(Bracket::Func("supports".into()));
+                    e.close(Bracket::Func(cased("supports")));
                 }
                 if let Some(m) = &im.media {
                     e.slot(Slot::Sep);
